@@ -1,7 +1,216 @@
 package zzverif
 
-import "time"
+// Native schedule controller: replays the goroutine schedule recorded by the symbolic executor.
+// Source files are instrumented (overlay copies) so that every scheduling point calls Yield and
+// every `go` statement goes through Go. One logical goroutine runs at a time, in the recorded
+// order; a rendezvous step releases sender and receiver together.
 
-var yieldHook = func(string) {}
+import (
+	"bytes"
+	"fmt"
+	"os"
+	"runtime"
+	"strconv"
+	"sync"
+	"time"
+)
 
-var quiesceHook = func() { time.Sleep(20 * time.Millisecond) }
+// Step is one recorded scheduler step.
+type Step struct {
+	G    int    `json:"g"`
+	Op   string `json:"op"`
+	Site string `json:"site,omitempty"`
+	Peer int    `json:"peer"`
+}
+
+var ctl struct {
+	mu       sync.Mutex
+	cond     *sync.Cond
+	active   bool
+	steps    []Step
+	pos      int
+	gids     map[uint64]int
+	parked   map[int]bool
+	running  map[int]bool
+	alive    map[int]bool
+	next     int
+	diverged string
+	lastMove time.Time
+	trace    []string
+}
+
+func init() { ctl.cond = sync.NewCond(&ctl.mu) }
+
+func goid() uint64 {
+	var buf [64]byte
+	n := runtime.Stack(buf[:], false)
+	b := buf[:n]
+	b = bytes.TrimPrefix(b, []byte("goroutine "))
+	i := bytes.IndexByte(b, ' ')
+	if i < 0 {
+		return 0
+	}
+	id, _ := strconv.ParseUint(string(b[:i]), 10, 64)
+	return id
+}
+
+// startSchedule activates the controller for the calling goroutine (logical id 0).
+func startSchedule(steps []Step) {
+	ctl.mu.Lock()
+	defer ctl.mu.Unlock()
+	ctl.active = len(steps) > 0
+	ctl.steps = steps
+	ctl.pos = 0
+	ctl.gids = map[uint64]int{goid(): 0}
+	ctl.parked = map[int]bool{}
+	ctl.running = map[int]bool{0: true}
+	ctl.alive = map[int]bool{0: true}
+	ctl.next = 1
+	ctl.diverged = ""
+	ctl.lastMove = time.Now()
+	ctl.trace = nil
+	if ctl.active {
+		go watchdog()
+	}
+}
+
+func stopSchedule() (string, int, int) {
+	ctl.mu.Lock()
+	defer ctl.mu.Unlock()
+	ctl.active = false
+	ctl.cond.Broadcast()
+	return ctl.diverged, ctl.pos, len(ctl.steps)
+}
+
+func watchdog() {
+	for {
+		time.Sleep(50 * time.Millisecond)
+		ctl.mu.Lock()
+		if !ctl.active {
+			ctl.mu.Unlock()
+			return
+		}
+		if time.Since(ctl.lastMove) > 700*time.Millisecond {
+			ctl.diverged = fmt.Sprintf("no progress at step %d/%d (a released goroutine blocked or the schedule does not match)", ctl.pos, len(ctl.steps))
+			ctl.active = false
+			ctl.cond.Broadcast()
+			ctl.mu.Unlock()
+			return
+		}
+		ctl.mu.Unlock()
+	}
+}
+
+// advance picks the next step when nothing is running. Called with the lock held.
+func advance() {
+	if !ctl.active {
+		return
+	}
+	for _, r := range ctl.running {
+		if r {
+			return
+		}
+	}
+	if ctl.pos >= len(ctl.steps) {
+		ctl.active = false
+		ctl.cond.Broadcast()
+		return
+	}
+	st := ctl.steps[ctl.pos]
+	ctl.pos++
+	ctl.lastMove = time.Now()
+	rel := func(g int) bool {
+		if !ctl.alive[g] || !ctl.parked[g] {
+			ctl.diverged = fmt.Sprintf("step %d wants goroutine %d (%s %s) which is not parked at a scheduling point", ctl.pos-1, g, st.Op, st.Site)
+			ctl.active = false
+			return false
+		}
+		ctl.parked[g] = false
+		ctl.running[g] = true
+		return true
+	}
+	if rel(st.G) && st.Peer >= 0 {
+		rel(st.Peer)
+	}
+	ctl.cond.Broadcast()
+}
+
+func yieldImpl(site string) {
+	ctl.mu.Lock()
+	if !ctl.active {
+		ctl.mu.Unlock()
+		return
+	}
+	g, ok := ctl.gids[goid()]
+	if !ok {
+		ctl.mu.Unlock()
+		return
+	}
+	ctl.running[g] = false
+	ctl.parked[g] = true
+	ctl.lastMove = time.Now()
+	advance()
+	for ctl.active && !ctl.running[g] {
+		ctl.cond.Wait()
+	}
+	ctl.mu.Unlock()
+}
+
+// Go starts fn as a new logical goroutine.
+func Go(site string, fn func()) {
+	ctl.mu.Lock()
+	if !ctl.active {
+		ctl.mu.Unlock()
+		go fn()
+		return
+	}
+	id := ctl.next
+	ctl.next++
+	ctl.alive[id] = true
+	ctl.running[id] = true
+	started := make(chan struct{})
+	go func() {
+		ctl.mu.Lock()
+		ctl.gids[goid()] = id
+		ctl.mu.Unlock()
+		close(started)
+		defer func() {
+			ctl.mu.Lock()
+			ctl.alive[id] = false
+			ctl.running[id] = false
+			ctl.parked[id] = false
+			ctl.lastMove = time.Now()
+			advance()
+			ctl.cond.Broadcast()
+			ctl.mu.Unlock()
+		}()
+		fn()
+	}()
+	ctl.mu.Unlock()
+	<-started
+	// like the symbolic scheduler: the child runs up to its first scheduling point first
+	ctl.mu.Lock()
+	for ctl.active && ctl.running[id] {
+		ctl.cond.Wait()
+	}
+	ctl.mu.Unlock()
+}
+
+var yieldHook = yieldImpl
+
+var quiesceHook = func() {
+	ctl.mu.Lock()
+	act := ctl.active
+	ctl.mu.Unlock()
+	if act {
+		yieldImpl("quiesce")
+		return
+	}
+	time.Sleep(30 * time.Millisecond)
+}
+
+func debugf(format string, args ...interface{}) {
+	if os.Getenv("ZZVERIF_DEBUG") != "" {
+		fmt.Fprintf(os.Stderr, format+"\n", args...)
+	}
+}
